@@ -531,6 +531,25 @@ def probe_switches(ctx, nsgenv, CR):
                                            "replay": replay})
             else:
                 ctx.violations.append({"key": "switch probe: second episode not answered", "what": f"{replay}: {len(o2)} answers {d.task_errors[:1]}", "replay": replay})
+            # third and fourth episode: a block placed in a LATER episode is lifted just the same - every episode starts with the
+            # configured firewall, however many episodes and blocks came before
+            for ep in (3, 4):
+                d.send(a, msg("BlockIP", source_host=ip("192.168.2.2"), target_host=ip("192.168.2.2"), blocked_host=ip("192.168.1.%d" % (ep - 1)))); d.settle()
+                d.new_output(a)
+                d.send(a, msg("ResetGame")); d.settle()
+                d.new_output(a)
+                d.send(a, scan); d.settle()
+                o3 = [json.loads(r[:-3].decode()) for r in d.new_output(a)]
+                if len(o3) == 1 and "observation" in o3[0]:
+                    in3 = {h["ip"] for h in o3[0]["observation"]["state"]["known_hosts"] if ipaddress.ip_address(h["ip"]) in net}
+                    if in3 != in_net:
+                        ctx.violations.append({"key": f"use_firewall={fw}: episode {ep} does not start with the configured firewall",
+                                               "what": f"{replay}: the same scan found {sorted(in_net)} in the first episode and {sorted(in3)} at the start of episode {ep} (a BlockIP of episode {ep - 1} must be lifted by the reset; with the firewall {'on the scenario rules apply again' if fw else 'off/absent every host answers'})",
+                                               "replay": replay})
+                        break
+                else:
+                    ctx.violations.append({"key": "switch probe: later episode not answered", "what": f"{replay}: episode {ep}: {len(o3)} answers {d.task_errors[:1]}", "replay": replay})
+                    break
             if d.task_errors:
                 ctx.violations.append({"key": "task died in the switch probe", "what": f"{replay}: {d.task_errors[:1]}", "replay": replay})
         except Exception as e:
